@@ -57,6 +57,12 @@ def _check_copy_contract(name, fn, args, W, case, ctx, fails):
             fails.append(Failure("%s:copy=False-argument-does-not-hold-result" % name, "argument after the call differs from the copy=True result", case))
     elif o2.status != "timeout":
         fails.append(Failure("crash:%s(copy=False):%s" % (name, o2.exc_name()), repr(o2.exc), case))
+    # the flag handed over by position (it is the parameter right after the documented ones)
+    W4 = gen.layout(W.copy(), _ORDER[0])
+    o4 = ctx.call(fn, W4, *(list(args) + [False]))
+    if o4.ok and (o4.value is not W4 or not np.array_equal(W4, r1, equal_nan=True)):
+        fails.append(Failure("%s:positional-copy-flag-not-honoured" % name, "fn(W, ..., False): result is the argument: %s, argument holds the result: %s"
+                             % (o4.value is W4, bool(np.array_equal(W4, r1, equal_nan=True))), case))
     # default is copy=True
     W3 = gen.layout(W.copy(), _ORDER[0])
     o3 = ctx.call(fn, W3, *args)
@@ -68,6 +74,11 @@ def _check_copy_contract(name, fn, args, W, case, ctx, fails):
 def check(case, ctx):
     op = case["op"]
     W = gen.layout(np.array(case["W"], dtype=float), case.get("order"))
+    if case.get("dtype", "float64") != "float64" and op != "proportional":
+        # single / half precision storage (the weights k/8 and their power-of-two multiples are exact there)
+        W = gen.layout(W.astype(case["dtype"]), case.get("order"))
+        ctx.label("dtype:" + case["dtype"])
+    rt = {"float32": 1e-6, "float16": 2e-3}.get(str(W.dtype), 1e-12)
     n = len(W)
     fails = []
     ctx.label("op:" + op)
@@ -96,8 +107,12 @@ def check(case, ctx):
         exact = Fraction(p) * possible
         want = _round_half_up(exact)
         frac = exact - math.floor(exact)
-        near_half = abs(frac - Fraction(1, 2)) < Fraction(1, 10 ** 9)
         exact_half = frac == Fraction(1, 2)
+        # the one legitimate ambiguity: the product evaluated in floating point lands exactly on a half although the exact product does not
+        fprod = (n * n - n) * p / (2 if sym else 1)
+        near_half = (not exact_half) and (fprod - math.floor(fprod) == 0.5)
+        if abs(frac - Fraction(1, 2)) < Fraction(1, 10 ** 9) and not exact_half:
+            ctx.label("product-within-1e-9-of-a-half")
         dyadic = bool(case.get("dyadic"))
         if sym:
             iu = np.triu_indices(n, 1)
@@ -176,9 +191,9 @@ def check(case, ctx):
         if R is not None:
             R = np.asarray(R)
             m = np.max(np.abs(W))
-            if not np.isclose(np.max(np.abs(R)), 1.0, rtol=1e-12):
+            if not np.isclose(np.max(np.abs(R)), 1.0, rtol=rt):
                 fails.append(Failure("%s:max-magnitude-not-1" % op, "max |.| = %r" % np.max(np.abs(R)), case))
-            if not np.allclose(R * m, W, rtol=1e-12, atol=0):
+            if not np.allclose(R.astype(float) * float(m), W.astype(float), rtol=rt, atol=0):
                 fails.append(Failure("%s:not-a-rescaling" % op, "", case))
     elif op in ("invert", "wc-lengths"):
         fn, args = (bct.invert, ()) if op == "invert" else (bct.weight_conversion, ("lengths",))
@@ -186,11 +201,11 @@ def check(case, ctx):
         if R is not None:
             R = np.asarray(R)
             with np.errstate(divide="ignore"):
-                want = np.where(W != 0, 1.0 / np.where(W != 0, W, 1.0), 0.0)
-            if not np.array_equal(R, want):
+                want = np.where(W != 0, 1.0 / np.where(W != 0, W, 1.0), 0.0).astype(W.dtype)
+            if not np.allclose(R, want, rtol=(0 if W.dtype == np.float64 else rt), atol=0):
                 fails.append(Failure("%s:not-reciprocal-on-support" % op, "", case))
             o = ctx.call(fn, R.copy(), *args)
-            if o.ok and not np.allclose(np.asarray(o.value), W, rtol=1e-12, atol=0):
+            if o.ok and not np.allclose(np.asarray(o.value, dtype=float), W.astype(float), rtol=rt, atol=0):
                 fails.append(Failure("%s:does-not-undo-itself" % op, "", case))
     elif op == "wc-unknown":
         o = ctx.call(bct.weight_conversion, W.copy(), "nonsense")
@@ -223,7 +238,7 @@ def prop_cases(draw, nlo=2, nhi=8):
         for i, v in enumerate(d):
             W[i, i] = v / 4.0
     W = W * draw(st.sampled_from([1.0, 1.0] + gen.POW2_SCALES))       # ranking of weights does not depend on the unit
-    kind = draw(st.sampled_from(["dyadic", "dyadic", "half", "rational", "edge", "bad"]))
+    kind = draw(st.sampled_from(["dyadic", "dyadic", "half", "rational", "edge", "bad", "half-ulp"]))
     possible = n * (n - 1) // 2 if sym else n * (n - 1)
     dyadic = False
     if kind == "dyadic":
@@ -237,6 +252,15 @@ def prop_cases(draw, nlo=2, nhi=8):
         fr = Fraction(2 * j + 1, 2 * possible)
         p = fr.numerator / fr.denominator
         dyadic = Fraction(p) == fr
+    elif kind == "half-ulp":
+        # one or two ulps next to a p whose product is exactly a half
+        j = draw(st.integers(0, max(0, possible - 1)))
+        fr = Fraction(2 * j + 1, 2 * possible)
+        p = fr.numerator / fr.denominator
+        for _ in range(draw(st.integers(1, 2))):
+            p = float(np.nextafter(p, draw(st.sampled_from([0.0, 1.0]))))
+        p = min(max(p, 0.0), 1.0)
+        dyadic = False
     elif kind == "rational":
         b = draw(st.integers(1, 40))
         a = draw(st.integers(0, b))
@@ -265,6 +289,8 @@ def other_cases(draw, nlo=1, nhi=8):
     scale = draw(st.sampled_from([1.0, 1.0] + gen.POW2_SCALES + [2.0 ** 60]))
     W = W * scale
     case = {"op": op, "W": W, "order": draw(st.sampled_from(gen.ORDERS))}
+    if scale == 1.0 or 2.0 ** -60 <= scale <= 2.0 ** 60:
+        case["dtype"] = draw(st.sampled_from(["float32", "float64", "float64"])) if np.all(np.abs(W)[W != 0] < 3e38) and np.all(W.astype(np.float32) == W) else "float64"
     if op == "absolute":
         thr = draw(st.sampled_from([0.0, 0.125, 0.25, 0.5, 0.75, 1.0, -0.25, -0.5, 0.3, 0.6])) * scale
         offw = W[~np.eye(n, dtype=bool)]
